@@ -107,6 +107,7 @@ def e2e_explore(rep, seeds, polls, orders, props, what):
             rep.sample({"seed": s, **x})
     rep.evaluations += len(seeds)
     rep.traces += len(seeds)
+    tot["smallest_margin_ns"] = min(int(p_["min_margin_ns"]) for p_ in parts)   # 0: true time sat on the edge of an interval (tight histories)
     rep.extra["explore"] = tot
     rep.notes.append(f"{what}: {len(seeds)} histories x {polls} polls: {tot}")
 
